@@ -70,6 +70,19 @@ def rule_same_reactions(ctx):
     sb = ctx.prog.func("director.DirectorHandler.start_build_phase")
     src = _norm(ast.unparse(sb.node))
     shared.check_failed_steps_retried(ctx, "a detached FAILED step is retried by one side only: a watch-mode rebuild and a restart end with different states")
+    # a hash job that fails while the watcher applies the observed changes drains the scheduler; that verdict must
+    # reach the report of the build phase, as it does after a restart: the reset of `draining` precedes end_watching
+    n_reset = 0
+    for tr, st in flow.paths_of(sb):
+        k_reset = [k for k, e in enumerate(tr) if e[0] == "assign" and e[1] == "self.scheduler.draining"]
+        k_end = [k for k, e in enumerate(tr) if e[0] == "call" and e[1] == "self.watcher.end_watching.set"]
+        if not k_end:
+            continue
+        n_reset += 1
+        ctx.check(bool(k_reset) and k_reset[-1] < k_end[0], sb.fq, "`draining` is reset before the watcher applies its changes, not after",
+                  "the reset of scheduler.draining follows the watcher's hash jobs: a file that cannot be hashed (the watcher drains the scheduler to surface it) is forgotten, the rebuild reports a clean build with status 0 and runs the cleanup, while a restart on the same tree ends DRAINED", "reset -> end_watching", where=ctx.where_of(sb))
+    if n_reset == 0:
+        raise AnalysisError("start_build_phase: end_watching.set() not found on any path")
     ctx.check(src.index("self.watcher.end_watching.set()") < src.index("wait_for_any_event(self.watcher.done_watching, self.stop_event)") < src.index("self.builder.resume.set()"), sb.fq, "the builder resumes only after the watcher has applied its changes", "the build can start before the observed changes are applied", "end_watching -> done_watching -> resume")
     w = ctx.prog.func("watcher.Watcher.run_once")
     causes = {ast.unparse(n) for n in ast.walk(w.node) if isinstance(n, ast.Attribute) and isinstance(n.value, ast.Name) and n.value.id == "HashUpdateCause"}
@@ -223,6 +236,7 @@ RULES = [
 ]
 
 MUTANTS = [
+    Mutant("draining-reset-after-watcher", "director.py", in_function("DirectorHandler.start_build_phase", lambda s: s.replace("        self.scheduler.draining = False\n", "", 1).replace("        self.builder.resume.set()\n", "        self.scheduler.draining = False\n        self.builder.resume.set()\n", 1) if "        self.scheduler.draining = False\n" in s else None), ("R-C14-1",)),
     Mutant("rebuild-retries-attached-only", "director.py", in_function("DirectorHandler.start_build_phase", replace_once("self.workflow.steps(StepState.FAILED, include_detached=True)", "self.workflow.steps(StepState.FAILED)")), ("R-C14-1",)),
     Mutant("resume-watches-static-only", "startup.py", in_function("watch_known_dirs", replace_once('f"file.state != {FileState.VOLATILE.value}"', 'f"file.state IN ({FileState.UNCONFIRMED.value}, {FileState.CONFIRMED.value}, {FileState.MISSING.value})"')), ("R-C14-4",)),
     Mutant("pending-watch-one-level", "watcher.py", in_function("AsyncInotifyWrapper.dir_loop", replace_once("            while not (path.is_dir() or path.name == \"..\" or path in (\"\", \".\")):\n                self.watches.setdefault(path, None)\n                path = path.parent\n", "            if not path.is_dir():\n                self.watches.setdefault(path, None)\n            while not (path.is_dir() or path.name == \"..\" or path in (\"\", \".\")):\n                path = path.parent\n")), ("R-C14-4",)),
